@@ -65,9 +65,9 @@ static void build_api(Geometry& geo,const std::string& path) {
     geo.finalize();
 }
 
-// ints: op(1 files / 2 api) id ndip nsens [old_ordering nobs] | floats: dipoles (pos,moment)*ndip, sensors (xyz)*nsens
+// ints: op(1 files / 2 api) id ndip nsens [old_ordering nobs ecog] | floats: dipoles (pos,moment)*ndip, sensors (xyz)*nsens
 static FWire c06_gain(ll op,Reader& r,FReader& fr) {
-    ll id = r.z(); size_t nd = r.n(), ns = r.n(); const bool old_ordering = !r.done() && r.z()!=0; const size_t nobs = r.done() ? 0 : r.n();
+    ll id = r.z(); size_t nd = r.n(), ns = r.n(); const bool old_ordering = !r.done() && r.z()!=0; const size_t nobs = r.done() ? 0 : r.n(); const bool ecog = !r.done() && r.z()!=0;
     Matrix dip(nd,6); for (size_t i=0;i<nd;++i) for (size_t k=0;k<6;++k) dip(i,k) = fr.x();
     Matrix pos(ns,3); for (size_t i=0;i<ns;++i) for (size_t k=0;k<3;++k) pos(i,k) = fr.x();
     Matrix obs(nobs,3); for (size_t i=0;i<nobs;++i) for (size_t k=0;k<3;++k) obs(i,k) = fr.x();
@@ -116,6 +116,23 @@ static FWire c06_gain(ll op,Reader& r,FReader& fr) {
             for (size_t i=0;i<GI.nlin();++i) out.f.push_back(GI(i,j)-mean);
         }
     } else out.z.push_back(0);
+    // innermost interface (label-free signature) and the ECoG gain taken on it without naming it (old -H2ECOGM path)
+    if (ecog) {
+        const Interface& inner = geo.innermost_interface();
+        double sx=0,sy=0,sz=0,s2=0; ll nv=0;
+        for (const auto& om : inner.oriented_meshes())
+            for (const auto& vp : om.mesh().vertices()) { sx += vp->x(); sy += vp->y(); sz += vp->z(); s2 += vp->norm2(); ++nv; }
+        const SparseMatrix H2C = Head2ECoGMat(geo,electrodes,inner);
+        const GainEEG GC(HM,DSM,H2C);
+        out.z.push_back((ll)GC.nlin()); out.z.push_back(nv);
+        out.f.push_back(s2); out.f.push_back(sx); out.f.push_back(sy); out.f.push_back(sz);
+        for (size_t j=0;j<GC.ncol();++j) {
+            double mean = 0.0;
+            for (size_t i=0;i<GC.nlin();++i) mean += GC(i,j);
+            mean /= (double)GC.nlin();
+            for (size_t i=0;i<GC.nlin();++i) out.f.push_back(GC(i,j)-mean);
+        }
+    } else { out.z.push_back(0); out.z.push_back(0); }
     return out;
 }
 
